@@ -1086,6 +1086,8 @@ def sc_cg_degenerate(V, P, cfg):
         b = np.stack([b1, np.array([2.0, -1.0], dtype=A.dtype)], axis=1)
     elif case == "dependent-columns":
         b = np.stack([b1, 2 * b1], axis=1)
+    elif case == "complex-dependent-columns":
+        b = np.stack([b1.astype(complex), 1j * b1.astype(complex), (0.5 - 2j) * b1.astype(complex)], axis=1)
     elif case in ("x0-is-the-rhs-array", "x0-is-the-rhs-block"):
         b = b1 * np.array([1.0, -0.5]) if case.endswith("array") else np.stack([b1, np.array([2.0, -1.0], dtype=A.dtype)], axis=1)
     else:   # solved-column: x0[:, 1] solves the second column exactly
@@ -1476,7 +1478,7 @@ def items(tier):
             cg(t, "identity", False, 50, 2, "r", False, False)
             cg(t, "identity", False, 1, 2, "c", True, True)
     for case in ("zero-rhs", "zero-column", "zero-first-column", "solved-column", "two-columns", "dependent-columns",
-                 "x0-is-the-rhs-array", "x0-is-the-rhs-block"):
+                 "x0-is-the-rhs-array", "x0-is-the-rhs-block", "complex-dependent-columns"):
         for mat in ("r1", "r2", "c1"):
             for t in (("N",) if mat != "c1" else TRANS):
                 add("cgdeg", "%s-%s-%s" % (case, mat, t), case=case, mat=mat, trans=t)
@@ -1548,7 +1550,13 @@ def replay(cfg, label, env, case):
     tol = 1e-8
     if kind == "cgdeg":
         # concrete regression items: the clause is evaluated on the real library
-        obs = SCEN[kind](V, None, cfg)
+        try:
+            obs = SCEN[kind](V, None, cfg)
+        except Exception as e:
+            from .common import _raised_in_repo
+            # the real solver raises for a right-hand side it documents as admissible: a violation whatever the label was
+            return dict(reproduced=(True if _raised_in_repo(e) else None),
+                        detail=dict(case=cfg["case"], raised="%s: %s" % (type(e).__name__, str(e)[:200])))
         bad = (not obs["ok"]) or bool(obs["warned"])
         return dict(reproduced=bool(bad), detail=dict(case=cfg["case"], matrix=DEG_MATS[cfg["mat"]], trans=cfg.get("trans", "N"),
                                                       x=[str(v) for v in np.asarray(obs["x"]).ravel()], solves=bool(obs["ok"]),
